@@ -146,6 +146,15 @@ def seeded(names, seconds=15):
                 rc, out = run_check_on(scratch, pr, seconds)
                 res.append((pr, rc == 1 and ('VIOLATION property=%s' % pr) in out, rc))
             caught = any(k for (_, k, _) in res)
+            if not caught:
+                # the plain-build shortcut hides what only shows with assertions enabled or under the sanitizers: the real quick tier decides
+                res = []
+                for pr in props:
+                    env = dict(os.environ, VERIF_REPO=scratch)
+                    env.pop('VERIF_QUICK_VARIANT', None)
+                    r = subprocess.run([os.path.join(D.ROOT, 'bin', 'check'), pr, '--tier', 'quick'], stdout=subprocess.PIPE, stderr=subprocess.STDOUT, text=True, env=env, errors='replace')
+                    res.append((pr + '(full quick tier)', r.returncode == 1 and ('VIOLATION property=%s' % pr) in r.stdout, r.returncode))
+                caught = any(k for (_, k, _) in res)
             D.log('SEEDED %-28s %s -> %s' % (os.path.basename(d), prop, ' '.join('%s:%s' % (pr, 'caught' if k else 'silent(rc=%d)' % rc) for (pr, k, rc) in res)))
             if not caught:
                 failed += 1
